@@ -459,7 +459,9 @@ holding the one non-zero byte that ended the padding. Its quirks are part of the
 -/
 
 inductive ChRes where
-  | ok (fs : List (Nat × Nat × List UInt8))    -- CRYPTO frames: offset, declared length, data read
+  /-- CRYPTO frames: offset, declared length, the bytes actually read (`f.data` is these bytes
+      followed by zeros up to the declared length — not materialised here) -/
+  | ok (fs : List (Nat × Nat × List UInt8))
   | err
   | panic
 deriving Repr, BEq, DecidableEq
@@ -507,8 +509,7 @@ def chFrames : (fuel : Nat) → Option UInt8 → List UInt8 → List (Nat × Nat
             if len ≥ makeLimit then .panic
             else if r2.isEmpty then .err                -- Read at the end of the payload: io.EOF
             else
-              let got := r2.take len
-              chFrames fuel none (r2.drop len) (acc ++ [(off, len, got ++ List.replicate (len - got.length) 0)])
+              chFrames fuel none (r2.drop len) (acc ++ [(off, len, r2.take len)])
       else .err
 
 def chReadAll (p : List UInt8) : ChRes := chFrames (p.length + 2) none p []
@@ -601,6 +602,8 @@ def marshalInitial (fb : Builder) (idx : Int) (planned : Bool) (frames : List (N
       | .err => .err "other"
       | .panic => .panic
       | .ok fs =>
+        -- `frame.data`: the bytes read, zero-filled to the declared length
+        let fs := fs.map fun f => (f.1, f.2.1, f.2.2 ++ List.replicate (f.2.1 - f.2.2.length) 0)
         let sorted := sortByOff fs
         match (match sorted with
                | [] => some []
